@@ -50,6 +50,15 @@ def make_check(name):
             e = A if s == "exc" else B
             r.fail(exc_kind(e), site + ".__init__", exc_detail(e))
             return r
+        if spec.get("pre_use"):
+            # history: B has already been fitted on, and used with, other data (the transform set) before the fit under test
+            r.label("previously-used-estimator")
+            other = dict(spec, train=spec["test"])
+            if fam.n_items(spec["test"]) >= 1:
+                sp_, _o = call(F.fit_call, fam, B, other, "fit")
+                if sp_ == "ok":
+                    call(F.transform_call, fam, B, other, spec["test"])
+                    call(F.transform_call, fam, B, other, spec["train"])
         s, r1 = call(F.fit_call, fam, A, spec, "fit_transform")
         s2, ret = call(F.fit_call, fam, B, spec, "fit")
         if s == "exc" and s2 == "exc" and type(r1) is type(ret) and isinstance(r1, (ValueError, NotImplementedError)):
@@ -103,9 +112,18 @@ def tags(name, spec):
     return t
 
 
+def with_pre_use(fam):
+    @st.composite
+    def s(draw, tier):
+        spec = draw(fam.strategy(tier))
+        spec["pre_use"] = draw(st.booleans())
+        return spec
+    return s
+
+
 def family_entry(name, quick, thorough, shards=(2, 8)):
     fam = F.get(name)
-    return Family(lambda tier, fam=fam: fam.strategy(tier), make_check(name), {"quick": quick, "thorough": thorough},
+    return Family(with_pre_use(fam), make_check(name), {"quick": quick, "thorough": thorough},
                   {"quick": shards[0], "thorough": shards[1]})
 
 
